@@ -155,31 +155,7 @@ func runC08(c *Ctx) {
 		}
 	}
 	// the decoder's root result: a document that is just 'null' decodes to a nil *Spec
-	for _, f := range fns {
-		for _, call := range c.callsTo(f, false, "cdi", "ParseSpec") {
-			raw := ir.CallResult(call, 0)
-			if raw == nil || raw.Referrers() == nil {
-				continue
-			}
-			for _, ref := range *raw.Referrers() {
-				if b, isCmp := ref.(*ssa.BinOp); isCmp && (ir.IsNilConst(b.X) || ir.IsNilConst(b.Y)) {
-					continue
-				}
-				if _, isRet := ref.(*ssa.Return); isRet {
-					continue // handing the (possibly nil) result to the caller is fine
-				}
-				nDeref++
-				guarded := false
-				for _, iff := range ir.Ifs(f) {
-					tv, nilSucc, ok := ir.NilTest(iff)
-					if ok && tv == raw && ir.OnlyViaEdge(f, ref, ir.Edge{From: iff.Block(), Succ: 1 - nilSucc}) {
-						guarded = true
-					}
-				}
-				r.Check("C08.K2", "decoder-root:"+c.U.RelName(f), guarded, c.pos(ref), "the *Spec returned by ParseSpec (nil for an empty or 'null' document) is used only after a nil test")
-			}
-		}
-	}
+	nDeref += c.decoderRootGuarded("C08.K2", fns)
 	r.Analysed["C08.K2.derefs_examined"] = nDeref
 
 	// ---- K3, K4, K7
@@ -526,4 +502,38 @@ func (c *Ctx) findRecursion(fns []*ssa.Function) string {
 		}
 	}
 	return found
+}
+
+// decoderRootGuarded: the *Spec returned by ParseSpec (nil, with a nil error,
+// for a document that is empty or just 'null') is used only under a nil test.
+// Returns the number of uses examined.
+func (c *Ctx) decoderRootGuarded(rule string, fns []*ssa.Function) int {
+	r := c.R
+	n := 0
+	for _, f := range fns {
+		for _, call := range c.callsTo(f, false, "cdi", "ParseSpec") {
+			raw := ir.CallResult(call, 0)
+			if raw == nil || raw.Referrers() == nil {
+				continue
+			}
+			for _, ref := range *raw.Referrers() {
+				if b, isCmp := ref.(*ssa.BinOp); isCmp && (ir.IsNilConst(b.X) || ir.IsNilConst(b.Y)) {
+					continue
+				}
+				if _, isRet := ref.(*ssa.Return); isRet {
+					continue // handing the (possibly nil) result to the caller is fine
+				}
+				n++
+				guarded := false
+				for _, iff := range ir.Ifs(f) {
+					tv, nilSucc, ok := ir.NilTest(iff)
+					if ok && tv == raw && ir.OnlyViaEdge(f, ref, ir.Edge{From: iff.Block(), Succ: 1 - nilSucc}) {
+						guarded = true
+					}
+				}
+				r.Check(rule, "decoder-root:"+c.U.RelName(f), guarded, c.pos(ref), "the *Spec returned by ParseSpec (nil for an empty or 'null' document) is used only after a nil test: such a file is a per-file error, not a crash of the whole refresh")
+			}
+		}
+	}
+	return n
 }
